@@ -66,6 +66,18 @@ def callSpec (s : CallSpec) (a : Aff) (dropFlag roundFlag : Bool) (b : Batch) : 
   else if b.ndim ≠ 2 then .error .value                 -- np.vstack: arrays of different dimensions
   else callBody s a dropFlag roundFlag b.rows
 
+/-- what a caller may hand to `__call__`: a numpy array, or a Python list / tuple (flat or nested, well-formed or not) -/
+inductive CallArg
+  | array (b : Batch)
+  | sequence
+  deriving Repr, Inhabited
+
+/-- `__call__` on any argument: NO `np.asarray` is applied - the first thing every `__call__` does is `argument.shape[1]` (the
+regenerated spec pins that statement), which a list or tuple does not have: AttributeError, however well-formed the nest is -/
+def callAny (s : CallSpec) (a : Aff) (dropFlag roundFlag : Bool) : CallArg → Except ErrKind (List (List Rat))
+  | .array b => callSpec s a dropFlag roundFlag b
+  | .sequence => .error .attribute
+
 /-! ## the six classes: constructor (from `Model/Affine.lean`) then the interpreted `__call__` -/
 
 def pixToRefCall (pos ori : List Rat) (ps : Spacing) (b : Batch) : Except ErrKind (List (List Rat)) := do
